@@ -226,4 +226,36 @@ PROPS = {
         real=["logstream.socketStream (accept loop, closer, handleConn)", "logstream.dgramStream", "logstream.SetReadDeadlineOnDone / IsExitableError", "logstream.LineReader", "tailer.Tailer"],
         stub=["net.Listener / net.Conn / net.PacketConn (simnet)", "waker.Waker"],
     ),
+    "C07": dict(
+        level="exploration",
+        quick=dict(runs=20000),
+        thorough=dict(runs=600000),
+        rule=("each run = a program with 1-3 strptime layouts from a family of six Go reference layouts (two of them reading the same strings as "
+              "year-month-day and year-day-month; one year-less syslog layout; zones; fractions), settime, plain timestamp() and a rule where strptime "
+              "comes after an update; an override location from {none, UTC, +05:00, -09:30}; the current-year option on/off; and 3-16 lines with values "
+              "valid, invalid, generated for another layout, or repeated from earlier lines, with the simulated clock advanced between lines (ms, days, "
+              "to one second before/at/after New Year). After every line the gauge holding timestamp(), the timestamp of every datum updated later on "
+              "the line and the runtime-error count are compared with a model built on time.Parse/ParseInLocation and the simulated clock. "
+              "Non-trivial: a value was repeated or the clock jumped; distinct = distinct (configuration, line history)."),
+        assumptions=["datum timestamps are compared only for instants representable as int64 nanoseconds since 1970 (years 1678-2261): a year-less layout without the current-year option yields year 0, which a datum cannot hold (timestamp() itself is still compared)",
+                     "the whole scenario runs on the controller goroutine (a VM is single-threaded); the schedule dimension is empty and stated as such"],
+        expect_probes=["invalid_value", "repeated_value", "parse_failure_expected", "instant_not_representable_in_datum"],
+        real=["compiler", "vm.VM (Strptime, Settime, Timestamp, ParseTime, memo)", "datum stamping", "Go time (fake clock: now and current year)"],
+        stub=[],
+    ),
+    "C05": dict(
+        level="exploration",
+        quick=dict(runs=20000),
+        thorough=dict(runs=600000),
+        rule=("each run = a program assembled from 3-8 of 15 state-stressing rules (strptime under two layouts reading the same strings differently, "
+              "syslog layout, constant strptime, settime, timestamp(), strtol and division that fail on some inputs, stop, a rule after stop, del, del after, "
+              "else/otherwise, capture reuse into a text metric), a history of 0-12 lines (one in three an exact repeat of an earlier line) with clock "
+              "advances and jumps in between, and a final line L. Twin oracle: the VM that processed the history and a freshly compiled copy loaded with the "
+              "same metric contents both process L at the same simulated instant; all metrics (tuples, values, timestamps, expiry), the runtime-error "
+              "count and the error text must agree. Non-trivial: the history contains a strptime, a runtime error or a stop."),
+        assumptions=["programs rejected by the compiler are discarded", "the scenario runs on the controller goroutine (single VM, no schedule dimension)"],
+        expect_probes=["history_has_strptime", "history_line_raised_runtime_error", "history_has_stop", "line_raised_runtime_error"],
+        real=["compiler", "vm.VM.ProcessLogLine", "metrics.Metric / datum", "Go time (fake clock)"],
+        stub=[],
+    ),
 }
